@@ -23,6 +23,7 @@ pub fn family(name: &str) -> Vec<Scenario> {
         "G3n" => scen::family_g_nosrc(3, &scen::EDGE_OPTIONS),
         "PX" => scen::family_px(),
         "PXd" => scen::family_pxd(),
+        "PV" => scen::family_pv(),
         "G4" => scen::family_g(4, &E3),
         "D3" => scen::family_d(3, &E4, false),
         "D3p" => scen::family_d(3, &E3, true),
@@ -47,11 +48,11 @@ pub fn jobs(prop: &str, tier: Tier) -> Vec<(String, u64)> {
     match (prop, tier) {
         ("C01", Tier::Quick) => q(&["G3", "G3n", "D3", "F3q", "S", "R"]),
         ("C01", Tier::Thorough) => q(&["G3", "G3n", "PX", "G4", "D3", "D3p", "D4", "F3", "F4", "P3", "S", "R"]),
-        ("C04", Tier::Quick) => q(&["P3", "PX", "PXd", "D3p", "S", "R"]),
-        ("C04", Tier::Thorough) => q(&["P3", "PX", "PXd", "P4", "D3p", "D4", "F4", "S", "R"]),
-        ("C05", Tier::Quick) => q(&["F3q", "S", "P3"]),
-        ("C05", Tier::Thorough) => q(&["F3", "F4", "S", "P3", "PX", "P4", "R"]),
-        ("C06", Tier::Quick) => q(&["V2", "V3", "G3", "G3n", "PX", "S", "R", "P3", "F3q"]),
+        ("C04", Tier::Quick) => q(&["P3", "PX", "PXd", "PV", "D3p", "S", "R"]),
+        ("C04", Tier::Thorough) => q(&["P3", "PX", "PXd", "PV", "P4", "D3p", "D4", "F4", "S", "R"]),
+        ("C05", Tier::Quick) => q(&["F3q", "S", "P3", "PV"]),
+        ("C05", Tier::Thorough) => q(&["F3", "F4", "S", "P3", "PX", "PV", "P4", "R"]),
+        ("C06", Tier::Quick) => q(&["V2", "V3", "G3", "G3n", "PX", "PV", "S", "R", "P3", "F3q"]),
         ("C06", Tier::Thorough) => q(&["V2", "V3", "G3", "G3n", "PX", "G4", "D3", "D4", "F3", "S", "R", "P3", "P4", "T3"]),
         ("C17", _) => q(&["R"]),
         ("C18", Tier::Quick) => q(&["T3", "R", "S", "V2"]),
@@ -72,7 +73,9 @@ pub struct Prepared {
 
 fn opts(s: &Scenario) -> BuildOpts {
     BuildOpts {
-        build_filename: if s.manifest_name == "build.ninja" {
+        build_filename: if let Some(f) = &s.f_spelling {
+            Some(f.clone())
+        } else if s.manifest_name == "build.ninja" {
             None
         } else {
             Some(s.manifest_name.clone())
